@@ -16,6 +16,24 @@ Theorem C02_exchange_join :
 Proof. exact exchange_join. Qed.
 Print Assumptions C02_exchange_join.
 
+
+(* the same at the level of the two instances' stores: the acknowledged single-point writes a
+   catch-up pass issues for one node leave both stores with the newer point per identity on that
+   node and touch no other node *)
+Theorem C02_node_exchange_store :
+  forall D U id t k, nodes_ok D -> nodes_ok U ->
+    no_nan (node_rows (s_nodes D) id) -> no_nan (node_rows (s_nodes U) id) ->
+    (forall t k a b, lookup (node_rows (s_nodes D) id) t k = Some a -> lookup (node_rows (s_nodes U) id) t k = Some b ->
+                     p_time a = p_time b -> a = b) ->
+    let L := node_rows (s_nodes D) id in let R := node_rows (s_nodes U) id in
+    let DU := apply_node_sends D U id id (sync_points L R) in
+    lookup (node_rows (s_nodes (fst DU)) id) t k = join (lookup L t k) (lookup R t k) /\
+    lookup (node_rows (s_nodes (snd DU)) id) t k = join (lookup L t k) (lookup R t k) /\
+    (forall id', id' <> id -> node_rows (s_nodes (fst DU)) id' = node_rows (s_nodes D) id' /\
+                              node_rows (s_nodes (snd DU)) id' = node_rows (s_nodes U) id').
+Proof. exact node_exchange_store. Qed.
+Print Assumptions C02_node_exchange_store.
+
 (* so the agreed value of each identity is never older than what either side had accepted *)
 Theorem C02_no_lost_write : forall a b, ole a (join a b) /\ ole b (join a b).
 Proof. exact join_covers. Qed.
